@@ -247,9 +247,6 @@ func BinOp(op string, l, r Val) (v Val, errc string, dom string) {
 				}
 				return Bool(b), "", ""
 			}
-			if math.IsNaN(lf) || math.IsNaN(rf) {
-				dom = DNaN
-			}
 			if (l.K == KInt && !Exact(l.I)) || (r.K == KInt && !Exact(r.I)) {
 				dom = DInexact
 			}
